@@ -443,3 +443,26 @@ def r8(cx):
             else:
                 cx.passed(ck, "watermark-before-append", [b.sp(bi, si)], "update is after the entry's appends")
     cx.floor("watermark updates from entry.seq", n, 1, ck)
+
+
+@rule("C01", "R9", "the flush timer leaves nothing behind on shutdown: every way out of run_flush_timer's loop passes a take() of the buffer and a flush attempt of what it took")
+def r9(cx):
+    ck, b = cx.need_body(I + "run_flush_timer")
+    flushes = M.find_calls(b, lambda c: c == FLUSH)
+    takes = M.find_calls(b, lambda c: c == BUF + "take")
+    rets = [bi for bi, blk in enumerate(b.blocks) if blk["term"]["k"] == "return" and not blk.get("cleanup")]
+    if not cx.floor("flush sites in run_flush_timer", len(flushes), 2, ck):
+        return
+    empties = set()
+    for sw in M.bool_switches(b):
+        r = sw["root"]
+        if r and r[2] == "call" and r[3]["callee"] == "std::vec::Vec::<T, A>::is_empty":
+            if M.has_call(M.operand_origins(b, r[3]["args"][0], at=(r[0], M.T)), lambda c: c == BUF + "take"):
+                empties.add(sw["true_edge"])
+    bad = [r for r in rets if r in b.reachable(0, removed_blocks=set(flushes), removed_edges=empties)]
+    tk_ok = all(b.dominated_by_blocks(r, set(takes)) for r in rets) if takes else False
+    if not bad and tk_ok:
+        cx.passed(ck, "shutdown-flushes-remaining-data", [b.sp(f) for f in flushes])
+    else:
+        cx.violation(ck, "shutdown-flushes-remaining-data", "run_flush_timer can return (shutdown) without taking the buffer and attempting to flush what it held: rows acknowledged with the WAL "
+                     "disabled or not yet synced are dropped on a graceful shutdown", [b.sp(r) for r in bad[:2]])
